@@ -130,7 +130,17 @@ impl BricksDomain {
                         }
                         // --Step 4-- Check whether two successive bricks have equal content.
                         // If so, merge them with the same content and add their min and max values together.
-                        else if current_brick.get_sequence() == next_brick.get_sequence() {
+                        // Only bricks of the form [S]^{0, max} are merged: a merged brick with min >= 1 would be
+                        // broken up again by step 5 into bricks with equal content, and the normalization would not terminate.
+                        // Bricks whose merged upper bound is not representable are left unmerged.
+                        else if current_brick.get_sequence() == next_brick.get_sequence()
+                            && current_brick.get_min() == 0
+                            && next_brick.get_min() == 0
+                            && current_brick
+                                .get_max()
+                                .checked_add(next_brick.get_max())
+                                .is_some()
+                        {
                             let merged_brick =
                                 current_brick.merge_bricks_with_equal_content(next_brick);
                             normalized[index] = BrickDomain::Value(merged_brick);
